@@ -41,6 +41,11 @@ class Infeasible(Exception):
     pass
 
 
+class PathCut(Exception):
+    """the path ends here without further obligations (after the inductive step of a loop invariant)"""
+    pass
+
+
 # ------------------------------------------------------------------------------------------
 # symbolic values
 # ------------------------------------------------------------------------------------------
@@ -336,6 +341,7 @@ class Path:
         self.inlined = set()
         self.summarised = set()
         self.known_tag = {}
+        self.known_cls = {}
         self.keep = []
         self.n_base = 0
         self.decision_ids = set()
@@ -439,6 +445,13 @@ class Path:
                     work.extend(self.pending)
                 except Infeasible:
                     work.extend(self.pending)
+                except Unsupported as ex:
+                    # a sub-path outside the subset is a result like any other: it matters only if the caller's
+                    # path can reach it (explorations run under base facts, a superset of the caller's sub-paths)
+                    new = self.pc[base:]
+                    results.append(([c for c in new if c.get_id() in self.decision_ids],
+                                    [c for c in new if c.get_id() not in self.decision_ids], ex, True))
+                    work.extend(self.pending)
                 finally:
                     for c_ in self.pc[base:]:
                         self.pc_raw.pop(c_.get_id(), None)
@@ -507,10 +520,12 @@ class Path:
 # the executor
 # ------------------------------------------------------------------------------------------
 class Frame:
-    def __init__(self, locals_, closure, module):
+    def __init__(self, locals_, closure, module, qualname=None, fn_node=None):
         self.locals = locals_
         self.closure = closure      # list of dicts (outer function locals), innermost first
         self.module = module        # ModuleInfo
+        self.qualname = qualname    # "module:Class.method" of the function being executed (loop invariants are keyed by it)
+        self.fn_node = fn_node
 
 
 class ModuleInfo:
@@ -622,6 +637,9 @@ class Engine:
         c = conc_int(sv.cls)
         if c is not None:
             return CLASSES[c]
+        known = self.p.known_cls.get(sv.cls.get_id())
+        if known is not None:
+            return known
         cands = candidates or CLASSES
         conds = [sv.cls == CLS[n] for n in cands]
         feas = []
@@ -630,8 +648,49 @@ class Engine:
         i = self.p.choose([c_ for _, c_ in feas] + [z3.BoolVal(False)])
         if i >= len(feas):
             raise Infeasible()
-        sv.cls = z3.IntVal(CLS[feas[i][0]])
+        # the decision is recorded per path (never on the shared SV: the same SV object is re-used when
+        # sub-paths of a merged call are re-executed)
+        self.p.known_cls[sv.cls.get_id()] = feas[i][0]
+        self.p.keep.append(sv.cls)
         return feas[i][0]
+
+    def feasible_classes(self, ct):
+        """classes the term ct (a class index) may denote on this path, by the light feasibility solver"""
+        p = self.p
+        fc = getattr(p, "feas_cls", None)
+        if fc is None:
+            fc = p.feas_cls = {}
+        hit = fc.get(ct.get_id())
+        if hit is not None and hit[0] == len(p.pc):
+            return hit[1]
+        known = p.known_cls.get(ct.get_id())
+        cands = [known] if known is not None else (hit[1] if hit is not None else CLASSES)
+        feas = [n for n in cands if p.feasible(ct == CLS[n])]
+        fc[ct.get_id()] = (len(p.pc), feas)
+        p.keep.append(ct)
+        return feas
+
+    def static_cls_by(self, sv: SV, keyfn):
+        """class of a ref as far as `keyfn` can tell: forks between groups of classes with different keys only and
+        returns a representative of the chosen group (the class itself stays symbolic within the group)"""
+        c = conc_int(sv.cls)
+        if c is not None:
+            return CLASSES[c]
+        known = self.p.known_cls.get(sv.cls.get_id())
+        if known is not None:
+            return known
+        groups = {}
+        for n in CLASSES:
+            groups.setdefault(keyfn(n), []).append(n)
+        gl = list(groups.values())
+        conds = [z3.Or([sv.cls == CLS[n] for n in g]) for g in gl]
+        i = self.p.choose(conds + [z3.BoolVal(False)])
+        if i >= len(gl):
+            raise Infeasible()
+        if len(gl[i]) == 1:
+            self.p.known_cls[sv.cls.get_id()] = gl[i][0]
+            self.p.keep.append(sv.cls)
+        return gl[i][0]
 
     # ---- path merging ----------------------------------------------------------------
     merge_cache: dict = {}
@@ -646,6 +705,7 @@ class Engine:
         base facts only (a superset of the sub-paths feasible on any outer path) and cached."""
         p = self.p
         heap0, nalloc0, known0, depth0 = dict(p.heap), p.nalloc, dict(p.known_tag), self.depth
+        kcls0 = dict(p.known_cls)
         pre = []
         if key is not None:
             key = key + (tuple(sorted((k, v.get_id()) for k, v in p.heap.items())), p.nalloc)
@@ -657,11 +717,23 @@ class Engine:
                 if tg is not None:
                     pre.append(testers[tg](t))
                     key = key + (("tag", t.get_id(), tg),)
+                # ... and the classes a reference argument may still have on the caller's path
+                ct = None
+                if z3.is_app(t) and t.decl().kind() == z3.Z3_OP_DT_CONSTRUCTOR and t.decl().name() == "VRef":
+                    ct = t.arg(0)
+                elif tg == 7:
+                    ct = simp(Val.cls(t))
+                if ct is not None and conc_int(ct) is None:
+                    feas = self.feasible_classes(ct)
+                    if len(feas) < len(CLASSES):
+                        pre.append(z3.Or([ct == CLS[n] for n in feas]))
+                        key = key + (("cls", ct.get_id(), tuple(feas)),)
 
         def restore():
             p.heap = dict(heap0)
             p.nalloc = nalloc0
             p.known_tag = dict(known0) if (key is None or restore.final) else {}
+            p.known_cls = dict(kcls0) if (key is None or restore.final) else {}
             self.depth = depth0
 
             def snap():
@@ -695,7 +767,7 @@ class Engine:
                 raise Unsupported("merged call is not pure (heap effect)")
             groups = {}
             for ds, fs, r, _ in results:
-                key2 = ("raise", r.cls) if isinstance(r, PyExc) else ("ret",)
+                key2 = ("raise", r.cls) if isinstance(r, PyExc) else ("unsup", str(r)) if isinstance(r, Unsupported) else ("ret",)
                 groups.setdefault(key2, []).append((simp(z3.And(ds)) if ds else z3.BoolVal(True), fs, r))
             keys = list(groups)
             summ = {"keys": keys, "conds": [simp(z3.Or([c for c, _, _ in groups[k]])) for k in keys], "groups": {}}
@@ -717,19 +789,35 @@ class Engine:
         key2 = summ["keys"][gi]
         g = summ["groups"][key2]
         p.assume_prepared(g["facts"])
+        if key2[0] == "unsup":
+            raise Unsupported(key2[1])
         if key2[0] == "raise":
             raise g["alts"][0][1]
         if g["value"] is None or key is None:
             self.merge_ctr = getattr(self, "merge_ctr", 0) + 1
             name = f"m!{abs(hash(key)) % (10 ** 10)}" if key is not None else f"m!{p.fresh_ctr}!{self.merge_ctr}"
-            n0 = len(p.pc)
-            val = self.merge_values(g["alts"], name)
-            defs = [(c, heavy(c)) for c in p.pc[n0:]]
+            # collect the defining constraints themselves (not the path-condition delta: a constraint that is
+            # already on this path would be missing from the cached definition on other paths)
+            self._merge_defs = []
+            try:
+                val = self.merge_values(g["alts"], name)
+                defs = [(c, heavy(c)) for c in self._merge_defs]
+            finally:
+                self._merge_defs = None
             g["value"] = (val, defs)
             return val
         val, defs = g["value"]
         p.assume_prepared(defs)
         return val
+
+    _merge_defs = None
+
+    def _massume(self, c):
+        self.p.assume(c)
+        if self._merge_defs is not None:
+            c = simp(c)
+            if not z3.is_true(c):
+                self._merge_defs.append(c)
 
     def merge_values(self, alts, name):
         """alts: [(cond, SV)] mutually exclusive, exhaustive under the current pc.  The merged value is
@@ -749,7 +837,7 @@ class Engine:
                 return ts[0]
             k = z3.Const(name + suffix, sort)
             for (c, _), t in zip(alts, ts):
-                p.assume(z3.Implies(c, k == t))
+                self._massume(z3.Implies(c, k == t))
             return k
         if kinds == {"int"}:
             return s_int(define(z3.IntSort(), lambda v: v.t))
@@ -767,7 +855,7 @@ class Engine:
                        "none": Val.is_VNone, "ref": Val.is_VRef}
             for c, v in alts:      # light facts about the tag (the defining equalities may be string-heavy)
                 if v.kind in testers:
-                    p.assume(z3.Implies(c, testers[v.kind](t)))
+                    self._massume(z3.Implies(c, testers[v.kind](t)))
             if "val" not in kinds:
                 self.tag_hints[t.get_id()] = (t, {self.TAG_OF_KIND[k] for k in kinds})
             return s_val(t)
